@@ -1,6 +1,6 @@
 """C05 — run termination and done flags are exact."""
 from harness.drivers import sched_common as sc
-from harness.drivers.sched_common import (COQ_REQUIRES, COQ_CHECK, COQ_CASE_TYPE, COQ_BRANCHES, COQ_HEADER, SHARD, MODELLED,
+from harness.drivers.sched_common import (COQ_REQUIRES, COQ_CHECK, COQ_CASE_TYPE, COQ_BRANCHES, COQ_HEADER, SHARD, CASE_TIMEOUT, MODELLED,
                                           run_impl, to_coq, shrink, distribution)
 
 PROP = "C05"
